@@ -134,6 +134,27 @@ ADDENDA = {
  "C20": " Also: first-use cases (stand-alone -race binary, first calls concurrent) and many-distinct order independence (200 000 / 1 000 000 distinct inputs through one process forwards and another backwards - enough for birthday collisions in any 32-bit key space).",
 }
 
+# widenings of the second session (rounds l-n of seeded changes)
+ADDENDA2 = {
+ "C01": " The reference text is concatenated by the harness's own collecting snippet (it does not pass through gengo's writer); single fragments of 250 B - 70 KB sit between small ones in one Render call; case 'overlap': two Executors of one process, the first held at each hook point around its file write while the second runs completely, and four at once - every file must equal the one its package gets when generated alone.",
+ "C02": " After a death inside a file write a run whose generator FAILS in the package holding the leftover temporary file comes first: the error must be returned and gengo.sum left alone.",
+ "C03": " References also pass type-checker objects (snippet.ID(*types.TypeName)), PkgExposeFor / PkgExposeOf of compiled generic instantiations with foreign type arguments, and templates with package-carrying arguments the format never mentions.",
+ "C04": " Packages spread their types over several files (holders sorting before what they hold); one template call brings in several new packages with clashing base names.",
+ "C05": " Docs of own and imported declarations are rendered through Context.Doc (texts that survive one removal of the leading name only); packages in which a stateful generator changes state without rendering; a scripted New that derives the instance from its receiver.",
+ "C06": " One generator renders from deferred callbacks only; local types and constants inside func literals of package-level var initialisers.",
+ "C07": " Force is a configuration axis.",
+ "C08": " Two local packages share a package name.",
+ "C09": " Snippets over single-use sequences (direct, as T argument, nested, through Fragments).",
+ "C11": " any / error embedded in anonymous struct types.",
+ "C12": " Embedded fields (every doc x trailing shape), quoted / backquoted / rune-literal tag values, prose that looks like a directive (word:word).",
+ "C13": " Every position of every file (header comments, build constraints, declaration boundaries, first and last byte) is located; accessors are asked for every universe name the package does not declare.",
+ "C14": " Recursion through func literals (nine families), fields of different instantiations of a generic struct, compound assignments.",
+ "C15": " Slash-less import paths (time, context, sync).",
+ "C16": " Promoted fields are also asked on the zero value (nil embedded pointer) where the shape allows.",
+ "C17": " Same-package interface types as declarations and as field types, declarations spread over several files, holders sorting before their dependencies, tags in multi-line block comments.",
+ "C18": " Foreign types from keyword-named and digit-leading directories, twin fields (Name / name) with one of them omitted, containers that differ only behind a pointer.",
+}
+
 def main():
     props = [json.loads(l) for l in open(os.path.join(ROOT, "properties.jsonl"))]
     hooks_commits = []
@@ -152,6 +173,7 @@ def main():
         if pid in CHECKS:
             cat, tech, text, note, ref = CHECKS[pid]
             text += ADDENDA.get(pid, "")
+            text += ADDENDA2.get(pid, "")
             checks.append({
                 "property_id": pid,
                 "quick_cmd": f"./check {pid} quick",
